@@ -35,6 +35,16 @@ pub fn gen_case(t: &mut Tape) -> Case {
             src = crate::model::lexdecor::crlf(&src);
         }
     }
+    // numbers at the edges of what a JSON reader may keep exact (2^53 + 1, 19-digit integers, i64::MAX,
+    // floats with 17 significant digits, subnormals)
+    if t.chance(1, 4) {
+        const NUMS: &[&str] = &[
+            "9007199254740993", "1727181000123456789", "9223372036854775807", "4611686018427387905", "9007199254740992", "123456789012345678",
+            "0.1", "1.7976931348623157e308", "5e-324", "2.2250738585072014e-308", "0.30000000000000004", "1e22", "123456789.12345679",
+        ];
+        let (a, b) = (*t.pick(NUMS), *t.pick(NUMS));
+        src = format!("{} | derive {{zn1 = {a}, zn2 = {b}}} | filter zn1 != {b}\n", src.trim_end());
+    }
     let dialect = if t.chance(1, 8) { None } else { Some(t.choose(DIALECTS.len())) };
     match t.choose(8) {
         0 => src = format!("prql target:sql.{}\n\n{src}", DIALECTS[t.choose(DIALECTS.len())].0),
